@@ -23,7 +23,7 @@ RULE = ("a real RF24Mesh master on a simulated radio; address requests injected 
         "first hop towards the requester really listens on (listening addresses learnt from real "
         "nodes). save_dhcp()/load_dhcp() round trips for every table size 0..255 in both formats. "
         "Non-trivial: >=1 lease granted or refused; distinct = distinct event histories.")
-RULE += (" Later rounds added: non-request frames and requests arriving while the master transmits, an exact release oracle, persistence after the saved table changed (same and new file), ID look-ups of leased addresses, a JSON table loaded mid-history that hands a leased address to another ID, the displaced ID asking again.")
+RULE += (" Later rounds added: non-request frames and requests arriving while the master transmits, an exact release oracle, persistence after the saved table changed (same and new file), ID look-ups of leased addresses, a JSON table loaded mid-history that hands a leased address to another ID, the displaced ID asking again, JSON tables that re-deal the leased addresses among the present IDs (clause loaded_pairs_present).")
 REQUIRED = {"table_injective": 20000, "reply_checks": 5000, "release_reassign": 40,
             "persistence_roundtrip": 150, "persistence_after_changes": 500}
 BUDGET = {"quick": 480, "thorough": 900}
@@ -111,6 +111,11 @@ def gen_cases(ctx):
                              [["req", 9, via], ["rereq", 0]]):
                     yield {"part": "seq", "events": [["req", 7, via], ["req", 8, via]] + pre
                            + [["load_json", 9, k]] + tail}
+    for via in (0o4444, 0o2, 0o3):
+        for n in (2, 3, 4):
+            for sd in range(12):
+                yield {"part": "seq", "events": [["req", 20 + j, via] for j in range(n)] + [["load_json_multi", sd]]
+                       + [["req", 40, via], ["rereq", 0], ["load_json_multi", sd + 100], ["req", 41, via]]}
     rng2 = ctx.sub_rng("c16b")
     for w in range(150 if ctx.tier == "quick" else 6000):
         ev = []
@@ -126,8 +131,10 @@ def gen_cases(ctx):
                 ev.append(["id_lookup", rng2.choice([0o1, 0o3, 0o23]), rng2.randrange(8)])
             elif r < 0.7:
                 ev.append(["lookup_frame", rng2.choice([0o1, 0o3]), rng2.choice(ids)])
-            elif r < 0.82:
+            elif r < 0.77:
                 ev.append(["load_json", rng2.choice(ids), rng2.randrange(8)])
+            elif r < 0.82:
+                ev.append(["load_json_multi", rng2.randrange(1 << 20)])
             elif r < 0.9:
                 ev.append(["rereq", rng2.randrange(3)])
             elif r < 0.95:
@@ -214,6 +221,34 @@ def one_event(ctx, case, rig, radio, master, ref, ev, hist, fid):
             finally:
                 shutil.rmtree(d, ignore_errors=True)
             ctx.count("json_tables_loaded_mid_history")
+        elif ev[0] == "load_json_multi":
+            # a JSON table that re-deals the leased addresses among the present IDs (every ID gets
+            # another ID's address), entries in a seeded order, plus one newcomer
+            ids = sorted(before)
+            if len(ids) < 2:
+                return True
+            r = random.Random(ev[1])
+            k = r.randrange(1, len(ids))
+            pairs = [(ids[i], before[ids[(i + k) % len(ids)]]) for i in range(len(ids))]
+            r.shuffle(pairs)
+            pairs = pairs[:r.randrange(2, len(pairs) + 1)]
+            loaded_pairs = dict(pairs)
+            d = tempfile.mkdtemp(prefix="c16_", dir="/dev/shm")
+            try:
+                fn = os.path.join(d, "t.json")
+                with open(fn, "w") as f:
+                    json.dump({str(a): b for a, b in pairs}, f)
+                master.load_dhcp(fn)
+            finally:
+                shutil.rmtree(d, ignore_errors=True)
+            ctx.clause("loaded_pairs_present")
+            missing = {a: b for a, b in loaded_pairs.items() if master.dhcp_dict.get(a) != b}
+            if missing:
+                ctx.violation("loaded-table-incomplete", "load_dhcp() of the JSON table %r into the live table %r left %r; "
+                              "missing/changed pairs %r (history %r)" % (pairs, before, dict(master.dhcp_dict), missing,
+                                                                         hist[-6:]), case)
+                return False
+            ctx.count("json_tables_redealing_live_leases")
         elif ev[0] == "rereq":
             # an ID that asked before and holds nothing now asks again, the way it did last time
             past = [e for e in hist[:-1] if e[0] == "req" and e[1] not in before]
